@@ -1,1 +1,2 @@
 import Driver.Region
+import Driver.Glyph
